@@ -102,7 +102,8 @@ def roots():
 # ---------------------------------------------------------------------------- rewrites
 RENAMES = {"msg": lambda n: n + "Renamed", "enum": lambda n: "X" + n, "alias": lambda n: n + "T", "const": lambda n: n + "_K",
            "field": lambda n: n + "_v2", "member": lambda n: n + "_X"}
-STYLES = [Style(), Style(semicolon="all"), Style(indent="  ", semicolon="mixed", blank_between=2), Style(indent="\t"), Style(blank_between=0)]
+STYLES = [Style(), Style(semicolon="all"), Style(indent="  ", semicolon="mixed", blank_between=2), Style(indent="\t"), Style(blank_between=0),
+          Style(trailing_comments=True, semicolon="mixed")]
 
 
 def successors(state):
